@@ -57,7 +57,8 @@ JudgeMerge(e, grp) ==
     [] OTHER -> <<"malformed", "group">>
 
 JudgeRename(e, grp) ==
-  CASE grp = "itf" -> ItfJudge(e, ~RenameClash(e.c1, e.s, e.t),
+  CASE grp = "itf" /\ e.s \notin ItfVars(e.c1) /\ Raised(e) -> <<"violation", "itf:absent-source-rejected:" \o e.exc>>   \* renaming an absent variable changes nothing
+    [] grp = "itf" -> ItfJudge(e, ~RenameClash(e.c1, e.s, e.t),
                                IF e.s \in ItfVars(e.c1) THEN RenameSet(Set(e.c1.inv), e.s, e.t) ELSE Set(e.c1.inv),
                                IF e.s \in ItfVars(e.c1) THEN RenameSet(Set(e.c1.outv), e.s, e.t) ELSE Set(e.c1.outv))
     [] grp = "faithful" -> Sem(e, grp, EquivClauses(e.res, Renamed(e.c1, e.s, e.t)))
